@@ -89,6 +89,18 @@ theorem strIncr_fk (db : DB) (k : Bytes) (d now : Int) : (strIncr db k d now).db
     have := strUpdateTx_fk db k (itoa (wrap64 (n + d))) now
     split <;> (rename_i he; rw [he] at this; exact this)
 
+theorem strIncrFloat_fk (db : DB) (k : Bytes) (d : Dyadic) (now : Int) : (strIncrFloat db k d now).db.fk = db.fk := by
+  unfold strIncrFloat
+  simp only
+  split
+  · rfl
+  · rfl
+  · split
+    · split <;> rfl
+    · rename_i txt _
+      have := strUpdateTx_fk db k txt now
+      split <;> (rename_i he; rw [he] at this; exact this)
+
 theorem strSetMany_fk (items : List (Bytes × Bytes)) (now : Int) :
     ∀ db : DB, (strSetMany db items now).db.fk = db.fk := by
   induction items with
@@ -271,6 +283,18 @@ theorem hashIncr_fk (db : DB) (k f : Bytes) (d now : Int) : (hashIncr db k f d n
   · split
     · rfl
     · rename_i dd he; exact hashSetTx_fk he
+
+theorem hashIncrFloat_fk (db : DB) (k f : Bytes) (d : Dyadic) (now : Int) : (hashIncrFloat db k f d now).db.fk = db.fk := by
+  unfold hashIncrFloat
+  simp only
+  split
+  · rfl
+  · rfl
+  · split
+    · split <;> rfl
+    · split
+      · rfl
+      · rename_i dd he; exact hashSetTx_fk he
 
 theorem hashDelete_fk (db : DB) (k : Bytes) (fs : List Bytes) (now : Int) :
     (hashDelete db k fs now).db.fk = db.fk := by
